@@ -185,11 +185,13 @@ def rsExprPath (r : Renaming) (as : List String) (att qself path : T) : T :=
        | none =>
           (match rlookup r.co x with
            | some m =>
+              -- only a bare identifier (`Path::get_ident`, no qualified self) names the const parameter; the node is
+              -- replaced by the replacement expression, its attributes are dropped (param.rs:342-352, 383-387)
               (match path with
-               | .node "Path" [] [lc, .node "List" [] (_ :: rest)] =>
-                  if rest.isEmpty && qself == noneNode && lc == .node "IgnL" [] [noneNode] && att == .node "Ign" [] [.node "List" [] []]
+               | .node "Path" [] [lc, .node "List" [] [.node "PathSegment" [] [_, .node "PathArguments::None" [] []]]] =>
+                  if qself == noneNode && lc == .node "IgnL" [] [noneNode]
                   then .eparam m
-                  else .node "Expr::Path" as [att, qself, .node "Path" [] [lc, .node "List" [] (mkSegment m :: rest)]]
+                  else .node "Expr::Path" as [att, qself, path]
                | _ => .node "Expr::Path" as [att, qself, path])
            | none => .node "Expr::Path" as [att, qself, path]))
   | none => .node "Expr::Path" as [att, qself, path]
